@@ -41,3 +41,36 @@ fn a_burst_larger_than_any_batch_is_delivered_completely_without_further_wakeups
         assert_eq!(v, expect, "burst of {}", n);
     }
 }
+
+/// dropping the executor drops every future it still holds -- also a parked one whose waker has been cloned
+/// elsewhere -- and schedule() fails afterwards
+#[test]
+fn dropping_the_executor_drops_parked_futures_whose_waker_lives_elsewhere() {
+    use calloop::futures::executor;
+    use std::future::Future;
+    use std::pin::Pin;
+    use std::sync::atomic::{AtomicBool, Ordering};
+    use std::sync::{Arc, Mutex};
+    use std::task::{Context, Poll, Waker};
+    struct Parked { keep: Arc<Mutex<Option<Waker>>>, dropped: Arc<AtomicBool> }
+    impl Future for Parked {
+        type Output = ();
+        fn poll(self: Pin<&mut Self>, cx: &mut Context<'_>) -> Poll<()> { *self.keep.lock().unwrap() = Some(cx.waker().clone()); Poll::Pending }
+    }
+    impl Drop for Parked { fn drop(&mut self) { self.dropped.store(true, Ordering::SeqCst); } }
+    let mut el: EventLoop<()> = EventLoop::try_new().unwrap();
+    let (exec, sched) = executor::<()>().unwrap();
+    el.handle().insert_source(exec, |_, _, _| {}).unwrap();
+    let keep = Arc::new(Mutex::new(None));
+    let (d1, d2) = (Arc::new(AtomicBool::new(false)), Arc::new(AtomicBool::new(false)));
+    sched.schedule(Parked { keep: keep.clone(), dropped: d1.clone() }).unwrap();
+    el.dispatch(Duration::from_millis(50), &mut ()).unwrap();
+    assert!(keep.lock().unwrap().is_some(), "the future was polled and parked");
+    // a second one that is still queued, never polled
+    sched.schedule(Parked { keep: Arc::new(Mutex::new(None)), dropped: d2.clone() }).unwrap();
+    drop(el);
+    assert!(d1.load(Ordering::SeqCst), "a parked future whose waker is held elsewhere outlived the executor");
+    assert!(d2.load(Ordering::SeqCst), "a queued future outlived the executor");
+    assert!(sched.schedule(async {}).is_err(), "schedule() on a destroyed executor");
+    drop(keep);
+}
